@@ -173,7 +173,8 @@ def match_float(s: str, pos: int) -> int:
 
 
 def matchstr(c: Cursor, match: Callable[[str, int], int]) -> str | None:
-    if (p := match(c.textstr, c.pos)) <= 0:
+    # NOTE: -1 is a failure, and so is an end position that consumed nothing
+    if (p := match(c.textstr, c.pos)) <= c.pos:
         return None
     i = c.pos
     c.goto(p)
